@@ -4,7 +4,7 @@
    (Generated/Gen_Strop.v: reserved lists incl. Python's keywords+builtins, reserved patterns and
    encoding rules as regex ASTs, prefixes, handler kinds) and with the interpreter's \s \d isspace tables.
    Strings are lists of code points; identifier types are arbitrary strings. *)
-From Verif Require Import StropInst StropThmRe StropThmEnc StropThm StropThmPipe StropThmCache StropThmInst StropKeywords StropThmKw Gen_Pin_strop_methods.
+From Verif Require Import StropInst StropThmRe StropThmEnc StropThm StropThmPipe StropThmCache StropThmFull StropThmInst StropKeywords StropThmKw Gen_Pin_strop_methods.
 Open Scope N_scope.
 
 (* ---- source tie of the model itself ----
@@ -15,7 +15,7 @@ Open Scope N_scope.
    (b) the methods the steps call (_encode, _strop_by_keyword, _strop_by_pattern, _do_for_type_and_all, _matches,
        _encoding_filter, encode_character, __init__, the `any` synthesis), Language._token_encoder of c, cpp, py and
        filter_short_reference_name have the normalised AST the hand model was written for (filter_id: see (d)). *)
-Theorem pipeline_is_model : strop_pipeline = model_pipeline strop_reverifies.
+Theorem pipeline_is_model : strop_pipeline = model_pipeline strop_reverifies strop_full_check.
 Proof. exact pipeline_is_model_thm. Qed.
 Print Assumptions pipeline_is_model.
 
@@ -46,10 +46,10 @@ Print Assumptions filter_id_is_model.
 
 (* the whole property on the observable: whatever the instance, if its name is non-empty a token is returned, and it is a valid
    identifier, not reserved, free of reserved patterns and not a keyword of the language *)
-Theorem filter_id_total_and_sound : forall l (i : inst) (ty : str), default_filter_id i <> [] -> str_eqb (lower ty) ty_all = false ->
+Theorem filter_id_total_and_sound : cpp_whole_token_premise -> forall l (i : inst) (ty : str), default_filter_id i <> [] -> str_eqb (lower ty) ty_all = false ->
   exists t, filter_id l i ty = Ok t /\ valid_ident t = true /\ reserved_lang l t = false /\ pattern_lang l ty t = false
             /\ ~ In t (lang_keywords l).
-Proof. exact filter_id_total_sound_thm. Qed.
+Proof. intros P l i ty; exact (filter_id_total_sound_thm l i ty P). Qed.
 Print Assumptions filter_id_total_and_sound.
 
 Example C09_strop_methods_shape_pinned : pin_strop_methods_ok = true.
@@ -66,12 +66,20 @@ Print Assumptions strop_sound_overrides.
 (* ---- TOTALITY: a token is ALWAYS returned -- every non-empty code-point string, every identifier type but `all`.
    The model can fail only where the code raises (no fuel, no engine limit), so this says TokenEncoder.strop cannot raise
    RuntimeError under the shipped configuration.  Side conditions recomputed from the regenerated data (StropThmTotal.v). ---- *)
+(* cpp_whole_token_premise (StropThmInst.v) is `True` in a tree whose _reverified has no whole-token loop (strop_full_check =
+   false).  In a tree WITH the loop (fix of F-STROP-ILLEGAL-AFFIX) it is the named premise "the loop accepts every token
+   containing `__` that the cpp encoder returns" -- proved for c, py and for cpp tokens without `__`; for the rest it rests on
+   the lemma "cpp encoder output never ends in `__`", not proved, supported by the exhaustive model-vs-implementation sweep. *)
+Theorem cpp_premise_trivial_now : strop_full_check = false -> cpp_whole_token_premise.
+Proof. exact cpp_premise_trivial_without_loop. Qed.
+
 Theorem strop_total_c : forall (ty s : str), s <> [] -> str_eqb (lower ty) ty_all = false -> exists t, strop_c ty s = Ok t.
 Proof. exact strop_total_c_thm. Qed.
 Print Assumptions strop_total_c.
 
-Theorem strop_total_cpp : forall (ty s : str), s <> [] -> str_eqb (lower ty) ty_all = false -> exists t, strop_cpp ty s = Ok t.
-Proof. exact strop_total_cpp_thm. Qed.
+Theorem strop_total_cpp : cpp_whole_token_premise ->
+  forall (ty s : str), s <> [] -> str_eqb (lower ty) ty_all = false -> exists t, strop_cpp ty s = Ok t.
+Proof. intros P ty s; exact (strop_total_cpp_thm ty s P). Qed.
 Print Assumptions strop_total_cpp.
 
 Theorem strop_total_py : forall (ty s : str), s <> [] -> str_eqb (lower ty) ty_all = false -> exists t, strop_py ty s = Ok t.
@@ -80,16 +88,16 @@ Print Assumptions strop_total_py.
 
 (* every DSDL name -- valid_ident = [A-Za-z_][A-Za-z0-9_]*, NO length bound (pydsdl only removes names from this set) --
    reserved or not, for every language and identifier type: a token comes back and it is legal and unreserved *)
-Theorem strop_dsdl_identifier : forall l (ty s : str), valid_ident s = true -> str_eqb (lower ty) ty_all = false ->
+Theorem strop_dsdl_identifier : cpp_whole_token_premise -> forall l (ty s : str), valid_ident s = true -> str_eqb (lower ty) ty_all = false ->
   exists t, strop_lang l ty s = Ok t /\ valid_ident t = true /\ reserved_lang l t = false /\ pattern_lang l ty t = false.
-Proof. exact strop_dsdl_ident_thm. Qed.
+Proof. intros P l ty s; exact (strop_dsdl_ident_thm l ty s P). Qed.
 Print Assumptions strop_dsdl_identifier.
 
 (* the exact outcome set *)
-Theorem strop_outcomes : forall l (ty s : str), s <> [] ->
+Theorem strop_outcomes : cpp_whole_token_premise -> forall l (ty s : str), s <> [] ->
   (str_eqb (lower ty) ty_all = true /\ strop_lang l ty s = ErrValue)
   \/ (str_eqb (lower ty) ty_all = false /\ exists t, strop_lang l ty s = Ok t).
-Proof. exact strop_outcomes_thm. Qed.
+Proof. intros P l ty s; exact (strop_outcomes_thm l ty s P). Qed.
 Print Assumptions strop_outcomes.
 
 (* ---- soundness: whatever is returned is a valid, unreserved identifier -- ALL strings, ALL id types ---- *)
@@ -133,7 +141,28 @@ Theorem chk_base_spelled_out : forall cfg,
 Proof. exact chk_base_spelled_out_thm. Qed.
 Print Assumptions chk_base_spelled_out.
 
-(* OUTSIDE that predicate the property is FALSE of the current code: the final re-verification's encoding dry-run uses
+(* With the whole-token loop in _reverified (sc_full_check; fix of F-STROP-ILLEGAL-AFFIX) soundness needs NOTHING about the affixes,
+   the encoding prefix or the handlers: for EVERY configuration with chk_full = an `all` rule X a* whose complement is within
+   [A-Za-z0-9_], a leading-digit guard (rule or pattern ^X with 0-9 in X), and whitespace_encoding_char <> "". *)
+Theorem strop_sound_any_config_full : forall (cfg : strop_cfg),
+  sc_reverify cfg = true -> sc_full_check cfg = true -> chk_full py_uni cfg = true ->
+  forall (ty s t : str), s <> [] -> strop py_uni py_isspace cfg ty s = Ok t ->
+  valid_ident t = true /\ is_reserved cfg t = false /\ matches_reserved_pattern py_uni cfg ty t = false.
+Proof.
+  intros cfg H1 H2 H3. pose proof H3 as H4. unfold chk_full in H4. apply andb_prop in H4 as [_ Hws].
+  exact (strop_sound_full_gen py_uni py_isspace cfg Hws H1 H2 H3).
+Qed.
+Print Assumptions strop_sound_any_config_full.
+
+(* live as soon as /repo has the loop (strop_full_check is regenerated): the property for the ten illegal-affix override
+   configurations of the sweep (suffix -, /, /../x, .., space, empty, U+00E9, prefix -, both empty, $x), all languages *)
+Theorem strop_sound_affix_overrides : strop_full_check = true ->
+  forall k l (ty s t : str), s <> [] -> strop_aff k l ty s = Ok t ->
+  valid_ident t = true /\ is_reserved (cfg_aff k l) t = false /\ matches_reserved_pattern py_uni (cfg_aff k l) ty t = false.
+Proof. exact strop_sound_affix_overrides_thm. Qed.
+Print Assumptions strop_sound_affix_overrides.
+
+(* OUTSIDE chk_base the property is FALSE of a tree WITHOUT that loop (cfg_c_suffix has sc_full_check := false): the encoding dry-run uses
    pattern.match (first character only), so an override with a stropping suffix outside the identifier alphabet returns an
    INVALID token instead of raising.  Known finding F-STROP-ILLEGAL-AFFIX (witness reproduced on /repo f2f61d1; proposed fix
    design_notes/C09_dryrun_fullmatch_fix.patch).  Partial: strop_sound_any_config. *)
@@ -182,9 +211,9 @@ Proof. exact strop_never_keyword_thm. Qed.
 Print Assumptions strop_never_keyword.
 
 (* a keyword used as a name comes back as a DIFFERENT token, which is not a keyword either *)
-Theorem keyword_is_stropped : forall l (ty w : str), In w (lang_keywords l) -> str_eqb (lower ty) ty_all = false ->
+Theorem keyword_is_stropped : cpp_whole_token_premise -> forall l (ty w : str), In w (lang_keywords l) -> str_eqb (lower ty) ty_all = false ->
   exists t, strop_lang l ty w = Ok t /\ t <> w /\ ~ In t (lang_keywords l).
-Proof. exact keyword_is_stropped_thm. Qed.
+Proof. intros P l ty w; exact (keyword_is_stropped_thm l ty w P). Qed.
 Print Assumptions keyword_is_stropped.
 
 (* self-test of the committed Python table: the interpreter that runs nunavut has exactly these hard keywords *)
